@@ -21,7 +21,8 @@ class CsrEvMonWorld(World):
     stub_components = ("CSR initiator (seeded open-loop agent)", "event source lines (seeded)")
     fault_kinds = ("abort", "gap", "event_in_clearing_cycle", "events_between_chunks",
                    "write_zero_mask", "read_while_events_arrive", "event_map_queried_before_complete",
-                   "second_instance_in_process")
+                   "second_instance_in_process",
+                   "decoder_windows_at_explicit_addresses_in_any_order")
     assumptions = (
         "Amaranth's Python RTL simulator executes the elaborated netlist faithfully",
         "only transaction-shaped CSR accesses are generated (complete or aborted, with gaps), "
@@ -42,7 +43,12 @@ class CsrEvMonWorld(World):
                 "trigger": rng.choice(TRIGGERS),
                 "attach": rng.wchoice([("direct", 5), ("decoder", 3), ("connect", 2)]),
                 "p_lv": rng.choice([5, 30, 60]), "hwseed": rng.bits(32),
-                "peek_sources": int(rng.chance(0.15)), "decoy": int(rng.chance(0.1))}
+                "peek_sources": int(rng.chance(0.15)), "decoy": int(rng.chance(0.1)),
+                # decoder attachment: which quarter of the decoder the monitor and its neighbour
+                # occupy (None: implicit placement) and which of the two is added first
+                "dec_slots": rng.choice([None, None] + [[a, b] for a in range(4) for b in range(4)
+                                                        if a != b]),
+                "dec_mon_first": int(rng.chance(0.5))}
 
     def gen_ops(self, rng, config, prop):
         dw = config["dw"]
@@ -51,6 +57,10 @@ class CsrEvMonWorld(World):
             k = rng.below(100)
             if k < 15:
                 ops.append({"k": "idle", "n": rng.range(1, 3)})
+            elif k < 23:
+                ops.append({"k": "weave", "reg": rng.below(2), "rn": rng.below(12),
+                            "wn": rng.below(12), "ord": [rng.below(3) for _ in range(8)],
+                            "gaps": [], "data": [rng.bits(dw) for _ in range(8)]})
             else:
                 sparse = rng.chance(0.5)
                 size = 8
@@ -92,9 +102,21 @@ class CsrEvMonWorld(World):
             mmap = dut.bus.memory_map
         elif attach == "decoder":
             dec = csr.Decoder(addr_width=dut.bus.addr_width + 2, data_width=dw)
-            dec.align_to(dut.bus.addr_width)
-            dec.add(_pad_bus(csr, dw), name="pad")
-            dec.add(dut.bus, name="mon")
+            slots = config.get("dec_slots")
+            if not slots:
+                dec.align_to(dut.bus.addr_width)
+                dec.add(_pad_bus(csr, dw), name="pad")
+                dec.add(dut.bus, name="mon")
+            else:
+                # explicit addresses in either order of addition (ascending or descending)
+                adds = [(dut.bus, "mon", int(slots[0]) % 4), (_pad_bus(csr, dw), "pad", int(slots[1]) % 4)]
+                if adds[0][2] == adds[1][2]:
+                    adds[1] = (adds[1][0], "pad", (adds[0][2] + 1) % 4)
+                if not config.get("dec_mon_first"):
+                    adds.reverse()
+                for b_, nm_, slot_ in adds:
+                    dec.add(b_, name=nm_, addr=slot_ << dut.bus.addr_width)
+                stats.fault("decoder_windows_at_explicit_addresses_in_any_order")
             top.submodules.dec = dec
             bus = dec.bus
             mmap = dec.bus.memory_map
